@@ -73,6 +73,12 @@ def base_fields(p: Pep) -> dict:
     return rp.expected_fields(p)
 
 
+def same_group(g, gs):
+    """two offered groups that are permutations of each other are one group written twice: the forms they give
+    carry the same modifications on the same residue, and 'no form twice' would be undecidable by the statement"""
+    return any(sorted(map(repr, g)) == sorted(map(repr, h)) for h in gs)
+
+
 def gen_rules(rng, seq, n_rules, groups=False):
     """disjoint-site rules: {pattern: mods | [groups]}"""
     rules, used = {}, set()
@@ -92,7 +98,7 @@ def gen_rules(rng, seq, n_rules, groups=False):
             gs = []
             for _ in range(k):
                 g = rng.sample(MODVALS, rng.choice([1, 1, 2]))
-                if g not in gs:
+                if not same_group(g, gs):
                     gs.append(g)
             rules[pat] = gs
         else:
@@ -108,7 +114,7 @@ def gen_term(rng, seq, end, groups=False):
     gs = []
     for _ in range(rng.choice([1, 1, 2]) if groups else 1):
         g = rng.sample(MODVALS, rng.choice([1, 1, 2]))
-        if g not in gs:
+        if not same_group(g, gs):
             gs.append(g)
     if r < 0.75:
         # unconditional: plain value / list
